@@ -44,7 +44,7 @@ func (ex *Exec) callFunc(st *State, fr *Frame, c ssa.Instruction, fn *ssa.Functi
 	// In recover mode callees are executed, not abstracted: what happens after a violated callee
 	// precondition (panic or garbage) decides the property, and only the body knows.
 	if fc := ex.L.Contracts.lookup(fn); fc != nil && !fc.InlineOnly && !(ex.recoverMode && ex.L.isRepoFunc(fn) && fn.Blocks != nil) {
-		return ex.callContract(st, fr, c, fn, fc, args)
+		return ex.callContract(st, fr, c, fn, fc, args, bind)
 	}
 	if !ex.L.isRepoFunc(fn) {
 		if !inlineExternal(fn) {
@@ -119,7 +119,7 @@ func hasRecover(fn *ssa.Function) bool {
 
 // ---------- contracts at call sites ----------
 
-func (ex *Exec) callContract(st *State, fr *Frame, c ssa.Instruction, fn *ssa.Function, fc *FuncContract, args []Value) []Outcome {
+func (ex *Exec) callContract(st *State, fr *Frame, c ssa.Instruction, fn *ssa.Function, fc *FuncContract, args []Value, bind []Value) []Outcome {
 	ex.usedCtr[funcKey(fn)] = true
 	if fc.Trusted {
 		ex.assumed["trusted:"+funcKey(fn)] = true
@@ -134,6 +134,13 @@ func (ex *Exec) callContract(st *State, fr *Frame, c ssa.Instruction, fn *ssa.Fu
 	}
 	for i, n := range fc.Params {
 		env.bind(n, args[i], fn.Params[i].Type())
+	}
+	for i, fv := range fn.FreeVars {
+		if i < len(bind) {
+			if _, ok := env.vars[fv.Name()]; !ok {
+				bindFreeVar(env, st, fv, bind[i])
+			}
+		}
 	}
 	// receiver / pointer params must be non-nil when the contract dereferences them: requires say so explicitly.
 	for i, r := range fc.Requires {
@@ -200,6 +207,11 @@ func (ex *Exec) havocClause(st *State, env *Env, m *Clause, why string) {
 	env = env.withState(st)
 	env.in = m.Text
 	loc, typ := env.evalLoc(m.Expr)
+	if loc.Global != nil {
+		if id, ok := st.globals[loc.Global]; ok {
+			loc = VPtr{Obj: id, Path: loc.Path}
+		}
+	}
 	if loc.Obj <= 0 {
 		return
 	}
